@@ -709,9 +709,12 @@ func ParseURI(uri SIPStr, puri *PsipURI) (ErrorURI, int) {
 	}
 	// uri type specific fixes
 
-	if puri.URIType == TELuri {
+	if puri.URIType == TELuri && puri.User.Len == 0 && puri.Pass.Len == 0 {
 		// for tel: uris we keep the number in the user part and the
 		//          host part will be empty
+		// (not if the uri was written with a user[:pass]@ part: moving
+		//  the host over the user would drop the user and leave the
+		//  password behind, in front of the "user")
 		puri.User = puri.Host
 		puri.Host.Reset()
 	}
